@@ -398,6 +398,7 @@ def run(chk, tier):
     _PR.check(chk, db, ['_string/basic_inplace_string', '_strings/find', '_strings/rfind'], floor=80)
     from ..rules import iters as _ITX
     _ITX.reverse_index_area(chk, db, ['_string/basic_inplace_string', '_strings/'])      # IT4i: downward index scans reach index 0
+    _ITX.resume_area(chk, db, ['_string/basic_inplace_string', '_strings/find', '_strings/rfind'])      # RESUME: pattern searches try every candidate position
     from ..rules import sibs as _SB
     _SB.check(chk, db, ['_string/basic_inplace_string', '_strings/find', '_strings/rfind'])      # SIB: cv/ref-qualified overloads of one member agree
     _SB.positive_control(chk)
